@@ -619,7 +619,8 @@ def gen_driver_cpp(model, plan, header_path):
     w("static void arc_drop(const void *p) { ((arcin *)p)->count--; }")
     w("static bool cb_zero(void *c, %s v) { (void)c; (void)v; return 0; }" % cbty)
     w("static bool cb_one(void *c, %s v) { (void)c; (void)v; return 1; }" % cbty)
-    w("static CSliceRef<uint8_t> mk_slice(const uint8_t *d, uintptr_t n) { CSliceRef<uint8_t> s; s.data = d; s.len = n; return s; }")
+    if any(a[0] == "struct CSliceRef_u8" for o in types for v in o["vtbls"] for f in v["funcs"] for a in f[2]):
+        w("static CSliceRef<uint8_t> mk_slice(const uint8_t *d, uintptr_t n) { CSliceRef<uint8_t> s; s.data = d; s.len = n; return s; }")
     w("static OpaqueCallback<%s> mk_cb(void *c, bool (*f)(void *, %s)) { OpaqueCallback<%s> r; r.context = c; r.func = f; return r; }" % (cbty, cbty, cbty))
     w("static const void *EXPECT_CONT;")
     w("static void state(void) {\n    int i; printf(\"STATE arcs=\");\n    for (i = 0; i < %d; i++) printf(\"%%ld,\", ARCS[i].count);\n    printf(\" drops=\");\n    for (i = 0; i < %d; i++) printf(\"%%d,\", INST[i].drops);\n    printf(\"\\n\");\n}" % (plan["arcs"], plan["insts"]))
